@@ -17,7 +17,7 @@ ASSUMPTIONS = [
 ]
 REQUIRED_COUNTERS = ["optimal.cpl", "optimal.cp", "optimal.gp", "family.quad", "family.neglog", "family.entropy", "family.lse",
                      "family.cpl-quad", "family.gp", "backtrack-on-None", "cp-vs-coneqp", "gp-vs-cp", "Fxz-calls-checked",
-                     "kkt.ldl", "kkt.ldl2", "kkt.chol", "kkt.chol2", "sparse-Df", "restricted-domain", "zero-optimum", "junk-upper-triangles-in-G-h", "kept-start-point", "prox-objective-reads-kept-start-point"]
+                     "kkt.ldl", "kkt.ldl2", "kkt.chol", "kkt.chol2", "sparse-Df", "restricted-domain", "zero-optimum", "junk-upper-triangles-in-G-h", "kept-start-point", "prox-objective-reads-kept-start-point", "gp.exponent-matrix-object-reused-after-in-place-change"]
 
 
 def plan(tier):
@@ -170,7 +170,24 @@ def run(ctx):
                 elif entry == "cp":
                     sol = solvers.cp(F, a["G"], a["h"], a["dims"], a["A"], a["b"], kktsolver=kkt, options=opts)
                 else:
-                    sol = solvers.gp(pr.K, sr.mk(pr.Fgp, pr.sparse_lin), sr.mk(pr.ggp), a["G"], a["h"], a["A"], a["b"], kktsolver=kkt, options=opts)
+                    Fm = sr.mk(pr.Fgp, pr.sparse_lin)
+                    if getattr(pr, "gp_reused_F", False) and len(Fm):
+                        # the caller's exponent matrix object was used by an earlier gp() call with other entries and has been
+                        # rewritten in place since (a parameter sweep): the second call must see the current entries
+                        keep = matrix(Fm.V) if pr.sparse_lin else matrix(Fm)
+                        decoy = pr.gp_decoy
+                        if pr.sparse_lin:
+                            Fm.V = matrix([float(decoy[int(i_), int(j_)]) for i_, j_ in zip(Fm.I, Fm.J)], (len(Fm.V), 1))
+                        else:
+                            Fm[:] = matrix([float(v_) for v_ in decoy.reshape(-1, order="F")], Fm.size)
+                        try:
+                            solvers.gp(pr.K, Fm, sr.mk(pr.ggp), a["G"], a["h"], a["A"], a["b"], options={"show_progress": False})
+                        except (ValueError, ArithmeticError):
+                            pass
+                        if pr.sparse_lin: Fm.V = keep
+                        else: Fm[:] = keep
+                        ctx.count("gp.exponent-matrix-object-reused-after-in-place-change")
+                    sol = solvers.gp(pr.K, Fm, sr.mk(pr.ggp), a["G"], a["h"], a["A"], a["b"], kktsolver=kkt, options=opts)
             return sol, None
         except Exception as e:
             return None, e
@@ -186,6 +203,10 @@ def run(ctx):
             pr = nl.gen_cp(rng)
         d = pr.dims
         pr.sparse_lin = rng.random() < 0.3
+        if entry == "gp" and rng.random() < 0.4:
+            pr.gp_reused_F = True
+            pr.gp_decoy = pr.Fgp * np.array([[rng.choice([0.5, 1.5, -1.0]) for _ in range(pr.Fgp.shape[1])] for _ in range(pr.Fgp.shape[0])]).reshape(pr.Fgp.shape)
+            if rng.random() < 0.6: pr.sparse_lin = True
         zero_opt = False
         if rng.random() < 0.15:
             # optimal value ~ 0: the iterates have pcost > 0 >= dcost, the documented relative gap is undefined (None) and
